@@ -105,7 +105,8 @@ func owns(in *inst, sh history.ClusterShardID) bool {
 func run(insts []*inst, sc scenario, finalSync bool) ([]rec.Violation, string) {
 	reset(insts)
 	var anns []announcement
-	claimAt := map[[2]int]time.Time{} // (inst, shard) -> time of the live claim
+	claimAt := map[[2]int]time.Time{} // (inst, shard) -> time of the live claim (harness clock)
+	regTS := map[[2]int]time.Time{}   // (inst, shard) -> registration time as returned by RegisterShard
 	everNewest := map[int]time.Time{} // shard -> time of the newest claim ever made
 	everNewestBy := map[int]int{}
 	left := map[int]bool{}
@@ -113,17 +114,20 @@ func run(insts []*inst, sc scenario, finalSync bool) ([]rec.Violation, string) {
 		switch st.Kind {
 		case "claim":
 			time.Sleep(2 * time.Microsecond) // distinct clock readings
-			ts := insts[st.From].sm.RegisterShard(shards[st.Shard])
+			regTS[[2]int{st.From, st.Shard}] = insts[st.From].sm.RegisterShard(shards[st.Shard])
+			// The claim's time is the harness's own reading of the clock, not the value the code returns (a
+			// registration that keeps an old time would otherwise define what "newest" means); the announcement
+			// carries the time of broadcasting, as broadcastShardChange does (time.Now() after registering).
+			time.Sleep(time.Microsecond)
+			ts := time.Now()
 			claimAt[[2]int{st.From, st.Shard}] = ts
 			if ts.After(everNewest[st.Shard]) {
 				everNewest[st.Shard], everNewestBy[st.Shard] = ts, st.From
 			}
-			// the announcement exactly as broadcastShardChange builds it (timestamp taken just after registering)
-			b, _ := json.Marshal(proxy.ShardMessage{Type: "register", NodeName: insts[st.From].name, ClientShard: shards[st.Shard], Timestamp: ts.Add(time.Microsecond)})
+			b, _ := json.Marshal(proxy.ShardMessage{Type: "register", NodeName: insts[st.From].name, ClientShard: shards[st.Shard], Timestamp: ts})
 			anns = append(anns, announcement{st.From, st.Shard, "register", b})
 		case "unclaim":
-			ts := claimAt[[2]int{st.From, st.Shard}]
-			insts[st.From].sm.UnregisterShard(shards[st.Shard], ts)
+			insts[st.From].sm.UnregisterShard(shards[st.Shard], regTS[[2]int{st.From, st.Shard}])
 			delete(claimAt, [2]int{st.From, st.Shard})
 			b, _ := json.Marshal(proxy.ShardMessage{Type: "unregister", NodeName: insts[st.From].name, ClientShard: shards[st.Shard], Timestamp: time.Now()})
 			anns = append(anns, announcement{st.From, st.Shard, "unregister", b})
@@ -330,6 +334,32 @@ func families(nInst, nShard int, withLeave, withUnclaim bool) []scenario {
 					}
 				}
 			})
+			if size == 2 && nShard == 1 {
+				// re-claim: a claims, b claims, a claims AGAIN while its first registration is still in place (its
+				// stream reconnected to the same instance). Three announcements, every delivery order, with a
+				// duplicate. The newest claim is a's second one.
+				a, b := cl[0], cl[1]
+				cls := []step{{Kind: "claim", From: a}, {Kind: "claim", From: b}, {Kind: "claim", From: a}}
+				dl := []step{{Kind: "deliver", To: b, Ann: 0}, {Kind: "deliver", To: a, Ann: 1}, {Kind: "deliver", To: b, Ann: 2}}
+				permute(len(dl), func(p []int) {
+					st := append([]step{}, cls...)
+					for _, i := range p {
+						st = append(st, dl[i])
+					}
+					out = append(out, scenario{Name: "reclaim", Steps: st})
+					out = append(out, scenario{Name: "reclaim", Steps: append(append([]step{}, st...), dl[p[0]])})
+				})
+				// ... and with b's announcement arriving between a's two registrations being announced
+				for _, mid := range [][]step{{dl[1]}, {dl[0], dl[1]}, {dl[1], dl[0]}} {
+					st := []step{cls[0], cls[1]}
+					st = append(st, mid...)
+					st = append(st, cls[2], dl[2])
+					if len(mid) == 1 {
+						st = append(st, dl[0])
+					}
+					out = append(out, scenario{Name: "reclaim-after-delivery", Steps: st})
+				}
+			}
 			if withUnclaim && size == 2 && nShard == 1 {
 				// the newer claimant withdraws; its register/unregister announcements reach the older one in either order
 				a, b := cl[0], cl[1]
